@@ -150,7 +150,8 @@ def prove(prop, thorough):
         res['broken'].append('Print Assumptions count %d != theorem count %d' % (len(blocks), len(thms)))
     res['wall_s'] = round(time.time() - t0, 2)
     if thorough and not res['broken']:
-        rc, out = sh('timeout 1500 coqchk -silent -o -Q . GV GV.%s.Lemmas 2>&1 | tail -40' % prop, cwd=COQ, timeout=1600)
+        mods = ' '.join('GV.' + t[:-3].replace('/', '.') for t in targets if t.startswith(prop + '/'))
+        rc, out = sh('timeout 2400 coqchk -silent -o -Q . GV %s 2>&1 | tail -40' % mods, cwd=COQ, timeout=2500)
         res['coqchk'] = out[-3000:]
         if 'Fatal' in out or 'Error' in out:
             res['broken'].append('coqchk rejected the compiled proofs: ' + out[-500:])
